@@ -24,20 +24,26 @@ type C10 struct{}
 // the default byte limit and scanned with Scanner.ScanContainer and MaxFileSize = L; a harness
 // extractor records every file it is handed, during the main scan and during layer tracing.
 type C10Scenario struct {
-	Mode  string    `json:"mode,omitempty"`
-	L     int64     `json:"limit"`
-	Image ImageSpec `json:"image"`
-	Via   string    `json:"via,omitempty"`
+	Mode         string `json:"mode,omitempty"`
+	ReadSymlinks bool   `json:"read_symlinks,omitempty"`
+	// Cancels (replay narrowing): only these cancellation instants; empty = every Extract call.
+	Cancels []int     `json:"cancels,omitempty"`
+	L       int64     `json:"limit"`
+	Image   ImageSpec `json:"image"`
+	Via     string    `json:"via,omitempty"`
 }
 
 func (C10) ID() string { return "C10" }
 func (C10) Rule() string {
-	return "(image) MaxFileBytes = L in {1,7,512}; 1-4 layers (empty history entries interleaved, broken histories included) whose archives hold regular files of size L-1, L, L+1, 2L (and a few unrelated sizes) over <=6 paths, rewritten across layers and now and then twice within one archive, seeded stream chunking; loaded with the real FromV1Image (simulated v1.Image) or FromTarball (real docker-save tarball); evaluation = one image load + observation of every chain-layer view (recursive walk and direct Stat/Open of every path) + snapshot of ExtractDir while the image is alive; non-trivial = the image holds at least one file of size >= L and one below. Container-scan configuration (1 in 3 scenarios): 2-5 layers rewriting 1-2 package-list files with 0-7 nine-byte lines each (deleted / re-created in between) so that the size of a path crosses MaxFileSize = L in {15, 30, 45} between layers; real Scanner.ScanContainer (main scan + trace.PopulateLayerDetails re-running filesystem.Run on older views) with a harness extractor that records Info.Size() and the bytes it could read for EVERY file it is handed; non-trivial = a path is within the limit in the final view and above it in an earlier view; distinct = distinct scenario JSON"
+	return "(image) MaxFileBytes = L in {1,7,512}; 1-4 layers (empty history entries interleaved, broken histories included) whose archives hold regular files of size L-1, L, L+1, 2L (and a few unrelated sizes) over <=6 paths, rewritten across layers and now and then twice within one archive, seeded stream chunking; loaded with the real FromV1Image (simulated v1.Image) or FromTarball (real docker-save tarball); evaluation = one image load + observation of every chain-layer view (recursive walk and direct Stat/Open of every path) + snapshot of ExtractDir while the image is alive; non-trivial = the image holds at least one file of size >= L and one below. Container-scan configuration (1 in 3 scenarios): 2-5 layers rewriting 1-2 package-list files with 0-7 nine-byte lines each (deleted / re-created in between) so that the size of a path crosses MaxFileSize = L in {15, 30, 45} between layers; real Scanner.ScanContainer (main scan + trace.PopulateLayerDetails re-running filesystem.Run on older views) optionally a symlink to a list file that the extractor requires too and ReadSymlinks (3 in 4); a harness extractor records Info.Size() and the bytes it could read for EVERY file it is handed; then cancel() is delivered from inside the k-th Extract call for EVERY k of the fault-free run (main scan and tracing phase): no Extract call may start afterwards; non-trivial = a path is within the limit in the final view and above it in an earlier view, or work remained after a cancellation instant; distinct = distinct scenario JSON"
 }
 
 var c10Paths = []string{"a", "b", "d/a", "d/b", "d/e/a", "x"}
 
 var c10ScanFiles = []string{"var/lib/db/status", "etc/pkgs"}
+
+// c10ScanLink is a symlink to one of the list files which the extractor requires too.
+const c10ScanLink = "etc/alt/pkgs.link"
 
 func genC10Scan(rt *rapid.T) *C10Scenario {
 	sc := &C10Scenario{Mode: "scan", L: rapid.SampledFrom([]int64{15, 30, 45}).Draw(rt, "L"), Via: "v1"}
@@ -65,11 +71,20 @@ func genC10Scan(rt *rapid.T) *C10Scenario {
 				exists[f] = false
 			}
 		}
+		if rapid.IntRange(0, 3).Draw(rt, "link") == 0 {
+			t := rapid.SampledFrom(c10ScanFiles[:nf]).Draw(rt, "link.target")
+			e := Entry{Kind: "l", Path: c10ScanLink, Perm: 0o777, Target: "/" + t}
+			if rapid.Bool().Draw(rt, "link.relative") {
+				e.Target = relTarget(c10ScanLink, t)
+			}
+			l.Entries = append(l.Entries, e)
+		}
 		l.Entries = append(l.Entries, Entry{Kind: "f", Path: fmt.Sprintf("layer-%d", i), Perm: 0o644, Data: fmt.Sprintf("%d\n", i)})
 		l.Chunk = genChunk(rt, "chunk")
 		sc.Image.Layers = append(sc.Image.Layers, l)
 	}
 	genHistory(rt, &sc.Image, nl, true)
+	sc.ReadSymlinks = rapid.IntRange(0, 3).Draw(rt, "read_symlinks") > 0
 	return sc
 }
 
@@ -93,8 +108,13 @@ func (C10) Gen(rt *rapid.T, tier string) any {
 			}
 			used[p] = true
 			sz := rapid.SampledFrom(sizes).Draw(rt, "size")
-			l.Entries = append(l.Entries, Entry{Kind: "f", Path: p, Perm: 0o644, Size: int(sz),
-				Style: rapid.SampledFrom([]string{"", "", "dot"}).Draw(rt, "style")})
+			e := Entry{Kind: "f", Path: p, Perm: 0o644, Size: int(sz),
+				Style: rapid.SampledFrom([]string{"", "", "dot"}).Draw(rt, "style")}
+			if rapid.IntRange(0, 5).Draw(rt, "whiteout_named") == 0 {
+				// a regular entry NAMED like a whiteout that carries content
+				e = Entry{Kind: "f", Raw: whiteoutSpelling(p), Perm: 0o644, Size: int(sz)}
+			}
+			l.Entries = append(l.Entries, e)
 		}
 		l.Chunk = genChunk(rt, "chunk")
 		sc.Image.Layers = append(sc.Image.Layers, l)
@@ -130,6 +150,13 @@ func (C10) Run(t *testing.T, scAny any) *sim.Outcome {
 		for i := range l.Entries {
 			e := &l.Entries[i]
 			if e.Kind != "f" {
+				continue
+			}
+			if e.Raw != "" {
+				probeSet[e.Raw] = true
+				if len(e.Content()) > 0 {
+					out.Count("whiteout_named_entries_with_content", 1)
+				}
 				continue
 			}
 			probeSet[e.Path] = true
@@ -189,7 +216,9 @@ func (C10) Run(t *testing.T, scAny any) *sim.Outcome {
 }
 
 // runC10Scan: ScanContainer with MaxFileSize = L never hands a larger file to an extractor,
-// neither in the main scan nor while tracing layers.
+// neither in the main scan nor while tracing layers; and once the scan context is cancelled
+// (from inside the k-th Extract call, for EVERY k of the fault-free run) no extraction on
+// another file or view starts.
 func runC10Scan(sc *C10Scenario, out *sim.Outcome) *sim.Outcome {
 	ctxs := out.Sample.(string)
 	sb, err := NewSandbox()
@@ -203,12 +232,27 @@ func runC10Scan(sc *C10Scenario, out *sim.Outcome) *sim.Outcome {
 		return out
 	}
 	defer img.CleanUp()
-	var recs []extractRec
-	x := &listExtractor{spec: &ListExtSpec{Name: "list/rec", PurlType: "generic", Files: c10ScanFiles}, rec: &recs}
-	res, err := scalibr.New().ScanContainer(context.Background(), img, &scalibr.ScanConfig{
-		FilesystemExtractors: []filesystem.Extractor{x}, MaxFileSize: int(sc.L)})
-	if err != nil || res.Status == nil || res.Status.Status != plugin.ScanStatusSucceeded {
-		out.Violate("scan-failed", "scan-failed", "ScanContainer failed: %v %v; %s", err, res, ctxs)
+	required := append(append([]string(nil), c10ScanFiles...), c10ScanLink)
+	scan := func(cancelAt int) ([]extractRec, bool) {
+		var recs []extractRec
+		ctx, cancel := context.WithCancel(context.Background())
+		defer cancel()
+		x := &listExtractor{spec: &ListExtSpec{Name: "list/rec", PurlType: "generic", Files: required}, rec: &recs}
+		if cancelAt > 0 {
+			x.onExtract = func(n int) {
+				if n == cancelAt {
+					cancel()
+				}
+			}
+		}
+		res, err := scalibr.New().ScanContainer(ctx, img, &scalibr.ScanConfig{
+			FilesystemExtractors: []filesystem.Extractor{x}, MaxFileSize: int(sc.L), ReadSymlinks: sc.ReadSymlinks})
+		ok := err == nil && res.Status != nil && res.Status.Status == plugin.ScanStatusSucceeded
+		return recs, ok
+	}
+	recs, ok := scan(0)
+	if !ok {
+		out.Violate("scan-failed", "scan-failed", "ScanContainer failed; %s", ctxs)
 		return out
 	}
 	chain, _ := img.ChainLayers()
@@ -220,7 +264,7 @@ func runC10Scan(sc *C10Scenario, out *sim.Outcome) *sim.Outcome {
 		}
 		return st.Size()
 	}
-	for _, f := range c10ScanFiles {
+	for _, f := range required {
 		if fin := sizeIn(last, f); fin >= 0 && fin <= sc.L {
 			for i := 0; i < last; i++ {
 				if sizeIn(i, f) > sc.L {
@@ -231,19 +275,69 @@ func runC10Scan(sc *C10Scenario, out *sim.Outcome) *sim.Outcome {
 			}
 		}
 	}
-	var hist []string
-	for _, r := range recs {
-		hist = append(hist, fmt.Sprintf("%s %d %d", r.Path, r.InfoSize, r.Bytes))
-		if r.InfoSize > sc.L || int64(r.Bytes) > sc.L {
-			where := "final-view-also-over-limit"
-			if fin := sizeIn(last, r.Path); fin <= sc.L {
-				where = "older-view-during-layer-tracing"
-			}
-			out.Violate("oversize-extract", "oversize-extract:"+where, "an extractor was handed %s with Info.Size()=%d / %d readable bytes although MaxFileSize=%d (size in the final view: %d); %s",
-				r.Path, r.InfoSize, r.Bytes, sc.L, sizeIn(last, r.Path), ctxs)
+	if sc.ReadSymlinks {
+		if _, err := chain[last].FS().Stat(c10ScanLink); err == nil {
+			out.Count("probe_required_symlink_in_final_view", 1)
 		}
 	}
+	var hist []string
+	checkSizes := func(recs []extractRec, tag string) {
+		for _, r := range recs {
+			hist = append(hist, fmt.Sprintf("%s %s %d %d", tag, r.Path, r.InfoSize, r.Bytes))
+			if r.InfoSize > sc.L || int64(r.Bytes) > sc.L {
+				where := "final-view-also-over-limit"
+				if fin := sizeIn(last, r.Path); fin <= sc.L {
+					where = "older-view-during-layer-tracing"
+				}
+				if r.Path == c10ScanLink {
+					where = "through-symlink"
+				}
+				out.Violate("oversize-extract", "oversize-extract:"+where, "an extractor was handed %s with Info.Size()=%d / %d readable bytes although MaxFileSize=%d (size in the final view: %d); %s",
+					r.Path, r.InfoSize, r.Bytes, sc.L, sizeIn(last, r.Path), ctxs)
+			}
+		}
+	}
+	checkSizes(recs, "free")
 	out.Count("extract_calls", int64(len(recs)))
+
+	// cancellation at every Extract call of the fault-free run
+	n := len(recs)
+	ks := sc.Cancels
+	if len(ks) == 0 {
+		for k := 1; k <= n && k <= 12; k++ {
+			ks = append(ks, k)
+		}
+	}
+	for _, k := range ks {
+		if k < 1 || k > n {
+			continue
+		}
+		out.Executions++
+		out.Count("fault_planned_cancel_in_extract", 1)
+		crecs, _ := scan(k)
+		if len(crecs) >= k {
+			out.Count("fault_fired_cancel_in_extract", 1)
+		}
+		if k < n {
+			out.Nontrivial = true
+		}
+		checkSizes(crecs, fmt.Sprintf("cancel@%d", k))
+		for j := k; j < len(crecs); j++ {
+			r := crecs[j]
+			kind := "cancelled-context"
+			if !r.CtxErr {
+				kind = "live-context"
+			}
+			if out.ReplayScenario == nil {
+				narrowed := *sc
+				narrowed.Cancels = []int{k}
+				out.ReplayScenario = &narrowed
+			}
+			out.Violate("post-cancel-extract", "post-cancel-extract:"+kind, "the scan context was cancelled inside Extract call %d (%s), yet Extract call %d started afterwards on %s (the context it was given was %s; %d calls in the fault-free run); %s",
+				k, crecs[k-1].Path, j+1, r.Path, kind, n, ctxs)
+			break
+		}
+	}
 	out.HistoryFP = sim.FP(hist)
 	return out
 }
